@@ -172,7 +172,9 @@ char ZCK_PUBLIC_API *zck_get_range_char(zckCtx *zck, zckRange *range) {
             free(output);
             return NULL;
         }
-        if(length > buf_size-loc) {
+        /* snprintf needs room for the terminating NUL as well, so a string
+         * that fits exactly has lost its last character */
+        if(length >= buf_size-loc) {
             buf_size = (int)(buf_size * 1.5);
             output = zrealloc(output, buf_size);
             if (!output) {
